@@ -22,6 +22,7 @@ import (
 	"mellium.im/xmpp/internal/attr"
 	"mellium.im/xmpp/internal/marshal"
 	intstream "mellium.im/xmpp/internal/stream"
+	"mellium.im/xmpp/internal/verifhook"
 	"mellium.im/xmpp/internal/wskey"
 	"mellium.im/xmpp/jid"
 	"mellium.im/xmpp/stanza"
@@ -488,6 +489,7 @@ func (s *Session) Serve(h Handler) (err error) {
 // If an error is returned (the original error or a different one), it has not
 // been handled fully and must be handled by the caller.
 func (s *Session) sendError(err error) (e error) {
+	verifhook.Yield("senderr.enter", "")
 	s.out.Lock()
 	defer s.out.Unlock()
 	s.stateMutex.Lock()
@@ -591,6 +593,7 @@ func handleInputStream(s *Session, handler Handler) (err error) {
 		s.sentStanzaMutex.Lock()
 		readerChan, ok := s.sentStanzas[id]
 		s.sentStanzaMutex.Unlock()
+		verifhook.Yield("serve.lookup", id)
 		emptySpace := xml.Name{Local: start.Name.Local}
 		if ok && readerChan.stanzaName == start.Name || readerChan.stanzaName == emptySpace {
 			inner := xmlstream.Inner(r)
@@ -599,6 +602,7 @@ func handleInputStream(s *Session, handler Handler) (err error) {
 				r: xmlstream.Wrap(inner, start),
 				c: readerChan.c,
 			}:
+				verifhook.Yield("serve.handoff", id)
 				<-readerChan.c
 			case <-readerChan.ctx.Done():
 			}
@@ -839,6 +843,7 @@ func (s *Session) TokenReader() xmlstream.TokenReadCloser {
 // Calling Close() multiple times will only result in one closing
 // </stream:stream> being sent.
 func (s *Session) Close() error {
+	verifhook.Yield("close.enter", "")
 	s.out.Lock()
 	defer s.out.Unlock()
 	s.stateMutex.Lock()
@@ -999,6 +1004,7 @@ func (s *Session) sendResp(ctx context.Context, id string, payload xml.TokenRead
 	}
 	s.sentStanzaMutex.Unlock()
 	defer func() {
+		verifhook.Yield("req.done", id)
 		s.sentStanzaMutex.Lock()
 		delete(s.sentStanzas, id)
 		s.sentStanzaMutex.Unlock()
@@ -1009,6 +1015,7 @@ func (s *Session) sendResp(ctx context.Context, id string, payload xml.TokenRead
 		return nil, err
 	}
 
+	verifhook.Yield("req.wait", id)
 	select {
 	case rr := <-c:
 		return rr, nil
